@@ -21,6 +21,9 @@ fn module_name_of(path: &str) -> String {
 /// Hostile shapes taken from reading lowering and inference: each is spliced as an extra
 /// function into a random module.
 pub const HOSTILE_SNIPPETS: &[&str] = &[
+    // more distinct unconstrained type variables than the alphabet has letters (the 27th is named `a1` or the like)
+    "fn wide(p0, p1, p2, p3, p4, p5, p6, p7, p8, p9, p10, p11, p12, p13, p14, p15, p16, p17, p18, p19, p20, p21, p22, p23, p24, p25, p26, p27, p28, p29, p30, p31, p32, p33, p34, p35, p36, p37, p38, p39) { #(p0, p1, p2, p3, p4, p5, p6, p7, p8, p9, p10, p11, p12, p13, p14, p15, p16, p17, p18, p19, p20, p21, p22, p23, p24, p25, p26, p27, p28, p29, p30, p31, p32, p33, p34, p35, p36, p37, p38, p39) }",
+    "fn wide_list(q) { let #(v0, v1, v2, v3, v4, v5, v6, v7, v8, v9, v10, v11, v12, v13, v14, v15, v16, v17, v18, v19, v20, v21, v22, v23, v24, v25, v26, v27, v28, v29) = q #(v0, v1, v2, v3, v4, v5, v6, v7, v8, v9, v10, v11, v12, v13, v14, v15, v16, v17, v18, v19, v20, v21, v22, v23, v24, v25, v26, v27, v28, v29) }",
     "fn h1(a) { case a { 1, 2 -> 3 x, y, z -> 4 } }",
     "fn h2(a, b) { case a, b { 1 -> 2 _ -> 3 } }",
     "fn h3(f) { use a, b, c <- f(1) a }",
